@@ -1,7 +1,8 @@
 """C13 Cube picking"""
+import epick
 import eunits
 
-LEVEL = "E-UNITS on the rules crates"
+LEVEL = "E-TABLE.pick + E-UNITS"
 
 
 def run(ctx):
@@ -11,4 +12,11 @@ def run(ctx):
                 "arguments of the declared unit (a swapped conversion is invisible under involutive orders).")
     nfn, nsites = eunits.run(ctx, F, crates=("oxidd_rules_bdd", "oxidd_rules_zbdd"))
     ctx.floor("E-UNITS", "function bodies analysed", nfn, 250)
+    ctx.explain("E-TABLE.pick: one step of pick_cube_dd_edge::inner and pick_cube_dd_set_edge::inner (BDD and BCDD) is "
+                "interpreted on structured abstract nodes: forced branches (a false child) are taken without consulting "
+                "the choice / literal, otherwise the choice function is called exactly once resp. the literal's polarity "
+                "decides; the literal set handed to the recursion is the remainder (never the false child; literals "
+                "below skipped negative literals are kept); the result puts the sub-cube on the branch taken.")
+    n = epick.run(ctx, F)
+    ctx.floor("E-TABLE.pick", "abstract situations of the cube-picking step", n, 60)
     ctx.not_decided = "that the result implies the function, don't-care minimality, statistical uniformity"
